@@ -232,4 +232,24 @@ class ScanEnv:
                 return a0
             if m == 'size_hint':
                 return (0, NONE)
+            if m in ('by_ref', 'fuse'):
+                return args[0]
+            if m in ('for_each', 'find_map', 'find', 'try_for_each', 'any', 'all', 'position'):
+                # provided Iterator methods on the caller's iterator: one next() at a time, exactly as std does
+                while True:
+                    nx = a0.next()
+                    if nx.variant == 'None':
+                        return {'for_each': (), 'find_map': NONE, 'find': NONE, 'any': False, 'all': True, 'position': NONE,
+                                'try_for_each': Enum('core::result::Result', 'Ok', [()])}[m]
+                    r = vm.call_value(args[1], [nx.payload[0]])
+                    if m == 'find_map' and not (isinstance(r, Enum) and r.variant == 'None'):
+                        return r
+                    if m == 'find' and r:
+                        return nx
+                    if m == 'any' and r:
+                        return True
+                    if m == 'all' and not r:
+                        return False
+                    if m == 'try_for_each' and isinstance(r, Enum) and r.variant in ('Err', 'None', 'Break'):
+                        return r
         return NotImplemented
